@@ -36,7 +36,7 @@ def grammar(rnd, depth=0):
         return grammar(rnd, depth + 1) + '|' + grammar(rnd, depth + 1)
     if r < 0.8:
         return rnd.choice(['(?:', '(']) + grammar(rnd, depth + 1) + ')'
-    return grammar(rnd, depth + 1) + rnd.choice(['?', '*', '+', '{2}', '{1,3}', '{2,}', '{ 2 }', '??', '{3,1}'])
+    return grammar(rnd, depth + 1) + rnd.choice(['?', '*', '+', '{2}', '{1,3}', '{2,}', '{ 2 }', '??', '{3,1}', '{2} ?', '{1,3}\n  ?', '* ?', '{2}#c\n?'])
 
 def validate(patterns_with_kind):
     pats = [p for p, k in patterns_with_kind]
@@ -75,6 +75,13 @@ def run(seed, n):
             pats.append((p, 'output'))
             for m in mutants(p, rnd, 2):
                 pats.append((m, 'mutant'))
+    # fixed corpus of patterns on which the model once disagreed (runs on every validation)
+    cp = os.path.join(os.path.dirname(os.path.abspath(__file__)), '..', 'corpus', 'patterns.jsonl')
+    if os.path.exists(cp):
+        for l in open(cp):
+            l = l.strip()
+            if l:
+                pats.append((json.loads(l)['pattern'], 'corpus'))
     for _ in range(n):
         g = grammar(rnd)
         pats.append((rnd.choice(['', '', '(?x)', '(?i)', '(?ix)\n']) + g, 'grammar'))
